@@ -175,3 +175,94 @@ def c09(ctx):
                   "link poses, limits, singularity) and around the real OPW solver; non-trivial = depth >= 2",
                   assumptions=["5-DOF clauses are replayed only for stacks whose tool/frame layers are axial (the statement's "
                                "presupposition)"])
+
+
+# ----------------------------------------------------------------------------- solver family
+def solver_trace(ctx, focus, instances, follow=False):
+    """Gen_Scenarios -> harness instances -> Trace_Solver; returns (events, viols)."""
+    g = tlc(ctx, "Gen_Scenarios", constants={"Thorough": "FALSE" if ctx.quick else "TRUE"}, workers=4)
+    scs = tlc_json_lines(g["out"], "scenario")
+    if not scs:
+        raise core.ToolError("Gen_Scenarios printed nothing")
+    write_ndjson(ctx.path("scenarios.ndjson"), scs)
+    opwv(ctx, ["record", "ik", ctx.path("scenarios.ndjson"), ctx.path("ik.trace")],
+         env_extra={"VERIF_FOCUS": focus, "VERIF_INSTANCES": str(instances)})
+    if follow:
+        opwv(ctx, ["record", "follow", ctx.path("follow.trace")])
+        with open(ctx.path("ik.trace"), "a") as f:
+            f.write(open(ctx.path("follow.trace")).read())
+    viols, done = trace_validate(ctx, "Trace_Solver", ctx.path("ik.trace"), xmx="12g")
+    ev = read_ndjson(ctx.path("ik.trace"))
+    return ev, viols
+
+
+def solver_report(ctx, ev, viols, pid):
+    """Keep only the clauses of property `pid` (the other properties report their own)."""
+    for v in viols:
+        e = ev[v["l"] - 1]
+        for clause in v["clause"]:
+            if not clause.startswith(pid + ":"):
+                continue
+            small = {k: e.get(k) for k in ("entry", "dof", "pose_class", "prev_class", "limits_class", "stack", "geom",
+                                            "signs", "offsets", "w16", "params", "prev", "truth")}
+            small["answers"] = e.get("answers", [])[:8]
+            ctx.violation("%s:%s" % (clause, e.get("pose_class", "trajectory")),
+                          "event #%d %s" % (v["l"], json.dumps(small)[:900]), e)
+    ctx.evaluations += len(ev)
+    for e in ev:
+        if e.get("answers"):
+            ctx.nontrivial.add(e.get("sc", -1) if e["ev"] == "ik" else ("follow", e.get("geom"), e.get("stack")))
+    for e in ev:
+        if e.get("answers") and len(ctx.samples) < 2:
+            ctx.sample({k: e[k] for k in e if k not in ("free", "plain", "params")})
+
+
+SOLVER_RULE = ("scenario classes enumerated by TLC (Gen_Scenarios: entry x declared DOF x pose class x previous class x "
+               "limit class, with geometry class / 64 sign patterns / offset class / weight / wrapper stack spread over "
+               "them) x seeded numeric instances; every call is one trace event carrying oracle facts (distance of the "
+               "independent forward model at each answer from the requested pose, nm/nrad) judged by the Solver contract "
+               "in Trace_Solver; distinct_nontrivial = scenario classes with at least one non-empty answer")
+SOLVER_ASSUME = ["numeric 1 um / 1 urad judgements are computed by the harness' float oracle (validated against the exact "
+                 "TLA+ chain by C03) and consumed by the spec",
+                 "singularity margins of the truth configuration: |sin q5|, |sin(elbow)| > 0.05, wrist centre > 5 cm from the J1 axis"]
+
+
+@check("C01")
+def c01(ctx):
+    ev, viols = solver_trace(ctx, "", 3 if ctx.quick else 10)
+    solver_report(ctx, ev, viols, "C01")
+    return finish(ctx, rule=SOLVER_RULE, assumptions=SOLVER_ASSUME)
+
+
+@check("C02")
+def c02(ctx):
+    ev, viols = solver_trace(ctx, "C02", 12 if ctx.quick else 40)
+    solver_report(ctx, ev, viols, "C02")
+    return finish(ctx, rule=SOLVER_RULE, assumptions=SOLVER_ASSUME)
+
+
+@check("C04")
+def c04(ctx):
+    ev, viols = solver_trace(ctx, "C04", 4 if ctx.quick else 12, follow=True)
+    solver_report(ctx, ev, viols, "C04")
+    ctx.extra["history_events"] = sum(1 for e in ev if e["ev"] == "follow")
+    ctx.extra["histories"] = sum(1 for e in ev if e["ev"] == "reset")
+    return finish(ctx, rule=SOLVER_RULE + "; histories: dense sinusoidal joint-space trajectories followed with "
+                  "inverse_continuing, previous = preceding first answer (checked by the trace spec's state variable)",
+                  assumptions=SOLVER_ASSUME + ["trajectories keep all three singularity margins >= 0.12..0.25 and stay inside +-2pi"])
+
+
+@check("C06")
+def c06(ctx):
+    ev, viols = solver_trace(ctx, "C06", 4 if ctx.quick else 12)
+    solver_report(ctx, ev, viols, "C06")
+    return finish(ctx, rule=SOLVER_RULE, assumptions=SOLVER_ASSUME)
+
+
+@check("C08")
+def c08(ctx):
+    ev, viols = solver_trace(ctx, "C08", 4 if ctx.quick else 12)
+    solver_report(ctx, ev, viols, "C08")
+    return finish(ctx, rule=SOLVER_RULE + "; every constrained call is paired with the same call on a twin robot without "
+                  "limits, and TLC recomputes compliance of every unconstrained answer with OnArc",
+                  assumptions=SOLVER_ASSUME)
